@@ -69,7 +69,7 @@ def merge (a : RObserved) (o : Realm.Observed) : RObserved :=
 /-- `realm.close`: every session gets the shutdown GOODBYE and its peer is closed; nothing is
     removed from broker or dealer and no meta event is published. -/
 def shutdownRealm (r : Realm) : Realm.Observed × Realm :=
-  let r := r.clients.foldl (fun r c => r.leave c.key .shutdown) { r with retries := [], deferred := [], tasks := [] }
+  let r := r.clients.foldl (fun r c => r.leave c.key .shutdown) { r with retries := [], deferred := [], inbox := [], tasks := [] }
   Realm.flush r
 
 def create (cfgs : List Config) : Option Router :=
